@@ -9,20 +9,91 @@ SPECIAL_SITES = {"oq3_verif: no progress": "push_event", "text_of_first_token un
 _fn_cache = {}
 
 
+def _mask_rust(src):
+    """blank out comments, string and char literals (keeps newlines) so braces can be counted"""
+    out, i, n = [], 0, len(src)
+    while i < n:
+        c = src[i]
+        if src.startswith("//", i):
+            j = src.find("\n", i); j = n if j < 0 else j
+            out.append(" " * (j - i)); i = j
+        elif src.startswith("/*", i):
+            j = src.find("*/", i + 2); j = n if j < 0 else j + 2
+            out.append("".join(ch if ch == "\n" else " " for ch in src[i:j])); i = j
+        elif c == '"':
+            j = i + 1
+            while j < n and src[j] != '"':
+                j += 2 if src[j] == "\\" else 1
+            j = min(j + 1, n)
+            out.append("".join(ch if ch == "\n" else " " for ch in src[i:j])); i = j
+        elif c == "'":
+            m = re.match(r"'(\\.[^']*|[^'\\])'", src[i:i + 12])
+            if m:
+                out.append(" " * m.end()); i += m.end()
+            else:
+                out.append(c); i += 1
+        else:
+            out.append(c); i += 1
+    return "".join(out)
+
+
+_fn_ranges = {}
+
+
+def _fn_table(path):
+    """[(first_line, last_line, name)] of every `fn` item with a body, from the CURRENT source"""
+    if path in _fn_ranges:
+        return _fn_ranges[path]
+    tab = []
+    try:
+        src = _mask_rust(open(path, encoding="utf-8").read())
+    except OSError:
+        _fn_ranges[path] = None
+        return None
+    for m in re.finditer(r"\bfn\s+([A-Za-z_0-9]+)", src):
+        # body: first `{` before any `;` at nesting depth 0 of () and []
+        i, par = m.end(), 0
+        while i < len(src):
+            ch = src[i]
+            if ch in "([":
+                par += 1
+            elif ch in ")]":
+                par -= 1
+            elif ch == ";" and par == 0:
+                i = -1; break
+            elif ch == "{" and par == 0:
+                break
+            i += 1
+        if i < 0 or i >= len(src):
+            continue
+        depth, j = 0, i
+        while j < len(src):
+            if src[j] == "{":
+                depth += 1
+            elif src[j] == "}":
+                depth -= 1
+                if depth == 0:
+                    break
+            j += 1
+        tab.append((src.count("\n", 0, m.start()) + 1, src.count("\n", 0, j) + 1, m.group(1)))
+    _fn_ranges[path] = tab
+    return tab
+
+
 def rust_fn_at(path, line):
-    """innermost enclosing `fn` of a panic location in the CURRENT source"""
+    """the outermost... no: the innermost `fn` item whose body encloses a panic location, except that
+    nested helper fns that do NOT enclose the line are skipped (current source)"""
     key = (path, line)
     if key in _fn_cache:
         return _fn_cache[key]
-    name = "?"
-    try:
-        src = open(path, encoding="utf-8").read().split("\n")
-        for i in range(min(line, len(src)) - 1, -1, -1):
-            m = re.search(r"\bfn\s+([A-Za-z_0-9]+)", src[i])
-            if m:
-                name = m.group(1); break
-    except OSError:
-        name = "?" + os.path.basename(path)
+    tab = _fn_table(path)
+    name = "?" + os.path.basename(path) if tab is None else "?"
+    best = None
+    for a, b, n in tab or []:
+        if a <= line <= b and (best is None or a >= best[0]):
+            best = (a, b, n)
+    if best:
+        name = best[2]
     _fn_cache[key] = name
     return name
 
@@ -39,7 +110,7 @@ def canon_panic(line):
         return rust_fn_at(m.group(1), int(m.group(2)))
     if rest in SPECIAL_SITES:
         return SPECIAL_SITES[rest]
-    return rest.split("::")[-1].split()[0].rstrip(":") if rest else "?"
+    return rest.split()[0].rstrip(":").split("::")[-1] if rest else "?"
 
 
 def fields(line):
